@@ -41,6 +41,8 @@ func ptStmt(tc *ptCase) (stmt, after string) {
 			return "print(" + cons + ")", ""
 		case "ret":
 			return "local function h() return " + cons + " end", "print(h)"
+		case "surplus":
+			return "local s = 1, " + cons, "print(s)"
 		}
 		return "local t = " + cons, "print(t)"
 	case "assign", "localdef":
@@ -64,11 +66,22 @@ func ptStmt(tc *ptCase) (stmt, after string) {
 			return "print(function" + pl + ")", ""
 		case "gfunc":
 			return "function gg" + pl, ""
+		case "surplus":
+			return "local s = 1, function" + pl, "print(s)"
 		}
 		return "local function g" + pl, "print(g)"
-	case "binexp", "andfalse", "floateq":
+	case "binexp", "andfalse", "floateq", "chain":
 		e := fmt.Sprintf("%s %s %s", tc.A, tc.Op, tc.B)
+		if tc.Fam == "chain" {
+			lit := map[string]string{"or": "true", "and": "false"}[tc.Op]
+			e = tc.A
+			for i := 0; i < int(tc.B[0]-'0'); i++ {
+				e += " " + tc.Op + " " + lit
+			}
+		}
 		switch tc.ECtx {
+		case "surplus":
+			return "local s = 1, " + e, "print(s)"
 		case "cond":
 			return "if " + e + " then print(1) end", ""
 		case "while":
